@@ -120,10 +120,12 @@ def _stage(draw, cur):
                 parents = [()] + [q for q in paths if isinstance(_get(cur, q), dict) and all(isinstance(c, str) for c in q)]
                 par = parents[draw(st.integers(0, len(parents) - 1))]
                 dst = par + ('q%d' % len(ops),)
-            if any(_related(src, u) or _related(dst, u) for u in used) or _related(src, dst):
+            # removing an element renumbers its siblings: no other operator of the stage may address that list
+            src_zone = src[:-1] if src and isinstance(src[-1], int) else src
+            if any(_related(src_zone, u) or _related(dst, u) for u in used) or _related(src_zone, dst):
                 continue
             ops.append({'op': 'prev', 'path': list(dst), 'src': list(src)})
-            used += [src, dst]
+            used += [src_zone, dst]
     # sibling content: plain overrides at unrelated top-level keys
     sib = {}
     for k in draw(st.lists(st.sampled_from(KEYS + ['n1', 'n2']), max_size=2, unique=True)):
